@@ -209,6 +209,10 @@ def oracle_on_case(ctx: Ctx, case, verbose=False):
             exported = []
             for tok in out:
                 u, ts, d = tok.split(":")
+                if int(u) not in by_uid:
+                    ctx.violation("export-foreign-event", f"the exporter wrote an event (uid {u}) that is no event of this "
+                                                          f"run's stream", case)
+                    return out
                 exported.append({"name": f"uid{u}", "ph": by_uid[int(u)]["ph"], "ts": Fraction(ts),
                                  **({"dur": Fraction(d)} if d != "none" else {})})
             # inputs of the stage-level stream may carry dur on non-X events (dropped by the exporter): such cases
